@@ -360,13 +360,13 @@ def run_check(mod: Any, tier: str, seed: int, only_part: Optional[str], collect:
                 f"from {path}",
                 file=sys.stderr,
             )
-            rc = max(rc, 2)
+            rc = rc or 2  # (a confirmed violation of the same run still exits 1)
             continue
         nviol += 1
         print(f"VIOLATION property={prop} replay={path}", flush=True)
         print(f"  part={part_name} kind={confirmed['kind']} tags={confirmed['tags']}")
         print(f"  detail={confirmed['detail'][:600]}")
-        rc = 1 if rc != 2 else rc
+        rc = 1
 
     if collect:
         for pn, pp in per_part.items():
